@@ -15,6 +15,9 @@
 // the __describe__ payload are byte-identical across requests;
 // DispatchInfo.ProtocolHash, Server.TransportKind() and CallContext.Kind are
 // the same for every dispatched request; nothing panics out of ServeHTTP.
+//
+// A second round kind, "async-log-overflow-then-recover" (see below), stalls
+// the async access-log writer so the queue overflows and then recovers.
 package main
 
 import (
@@ -23,9 +26,11 @@ import (
 	"context"
 	"crypto/sha256"
 	"encoding/hex"
+	"encoding/json"
 	"errors"
 	"fmt"
 	"io"
+	"math/rand/v2"
 	"net/http"
 	"net/http/httptest"
 	"os"
@@ -693,7 +698,229 @@ func head(ev []mon.Event, n int) []mon.Event {
 	return ev
 }
 
+// ---------------------------------------------------------------------------
+// Round kind "async-log-overflow-then-recover" (runs in a child process: the
+// defect class it looks for can end in the unrecoverable runtime error
+// "concurrent map iteration and map write").
+//
+// Access log in async mode with a queue of 1..4 behind a writer that can be
+// stalled. Per cycle: gate shut, a barrier-released burst of dispatching
+// requests overflows the queue (records are dropped); gate opened, another
+// burst while the writer drains — the first record that gets through carries
+// dropped_records and is marshalled by the writer goroutine while request
+// goroutines keep enqueueing. The oracle is the race-detector log (read by the
+// parent at the end of the run) and the child staying alive.
+
+type gatedLog struct {
+	mu      sync.Mutex
+	gate    chan struct{}
+	lines   int
+	stamped int // lines carrying dropped_records
+	bad     int // lines that are not one JSON object
+}
+
+func (g *gatedLog) shut() {
+	g.mu.Lock()
+	if g.gate == nil {
+		g.gate = make(chan struct{})
+	}
+	g.mu.Unlock()
+}
+
+func (g *gatedLog) open() {
+	g.mu.Lock()
+	c := g.gate
+	g.gate = nil
+	g.mu.Unlock()
+	if c != nil {
+		close(c)
+	}
+}
+
+func (g *gatedLog) Write(p []byte) (int, error) {
+	g.mu.Lock()
+	c := g.gate
+	g.mu.Unlock()
+	if c != nil {
+		<-c
+	}
+	g.mu.Lock()
+	for _, ln := range bytes.Split(bytes.TrimSuffix(p, []byte("\n")), []byte("\n")) {
+		g.lines++
+		var m map[string]any
+		if json.Unmarshal(ln, &m) != nil {
+			g.bad++
+		} else if _, ok := m["dropped_records"]; ok {
+			g.stamped++
+		}
+	}
+	g.mu.Unlock()
+	return len(p), nil
+}
+
+type overflowIn struct {
+	Seed  int64 `json:"seed"`
+	Index int   `json:"index"`
+}
+
+type overflowOut struct {
+	Queue      int    `json:"queue"`
+	Goroutines int    `json:"goroutines"`
+	Cycles     int    `json:"cycles"`
+	Requests   int    `json:"requests"`
+	Dispatches int    `json:"dispatches"`
+	Lines      int    `json:"lines_written"`
+	Stamped    int    `json:"lines_with_dropped_records"`
+	BadLines   int    `json:"unparsable_lines"`
+	WrongEcho  int    `json:"wrong_echo"`
+	Panic      string `json:"panic,omitempty"`
+}
+
+func overflowScenario(input []byte) []byte {
+	var in overflowIn
+	_ = json.Unmarshal(input, &in)
+	rng := rand.New(rand.NewPCG(uint64(in.Seed), uint64(in.Index)*2654435761+17))
+	out := overflowOut{Queue: 1 + rng.IntN(4), Goroutines: 16 + rng.IntN(33), Cycles: 3 + rng.IntN(3)}
+
+	srv := vgirpc.NewServer()
+	srv.SetServerID(fmt.Sprintf("c40-ovf-%d", in.Index))
+	srv.SetServiceName("C40Overflow")
+	vgirpc.Unary(srv, "c40_echo", func(_ context.Context, _ *vgirpc.CallContext, p echoParams) (int64, error) { return p.V, nil })
+	sinkLog := &gatedLog{}
+	alog := vgirpc.NewAccessLogHook(sinkLog, "c40")
+	if err := alog.SetAsync(out.Queue); err != nil {
+		out.Panic = "SetAsync: " + err.Error()
+		b, _ := json.Marshal(out)
+		return b
+	}
+	var dispatches atomic.Int64
+	srv.SetDispatchHook(&countingHook{inner: alog, n: &dispatches})
+	h := vgirpc.NewHttpServer(srv)
+
+	var wrong, reqs atomic.Int64
+	var panicMsg atomic.Value
+	burst := func(base int64) {
+		var ready, wg sync.WaitGroup
+		start := make(chan struct{})
+		for g := 0; g < out.Goroutines; g++ {
+			ready.Add(1)
+			wg.Add(1)
+			go func(g int) {
+				defer wg.Done()
+				ready.Done()
+				<-start
+				for k := 0; k < 2; k++ {
+					v := base + int64(g*10+k)
+					req := httptest.NewRequest("POST", "/c40_echo", bytes.NewReader(wj.BuildRequest("c40_echo", "", []wj.P{{Name: "v", V: v}})))
+					req.Header.Set("Content-Type", wj.ArrowCT)
+					rec := httptest.NewRecorder()
+					func() {
+						defer func() {
+							if rv := recover(); rv != nil {
+								panicMsg.Store(fmt.Sprint(rv))
+							}
+						}()
+						h.ServeHTTP(rec, req)
+					}()
+					reqs.Add(1)
+					if got := wj.ReadResponse(rec.Body.Bytes()).DataInt64(); len(got) != 1 || got[0] != v {
+						wrong.Add(1)
+					}
+				}
+			}(g)
+		}
+		ready.Wait()
+		close(start)
+		wg.Wait()
+	}
+	for c := 0; c < out.Cycles; c++ {
+		sinkLog.shut()
+		burst(int64(c) * 100000) // queue (1..4) overflows: drops > 0
+		sinkLog.open()
+		burst(int64(c)*100000 + 50000) // the writer drains and marshals while records keep coming
+	}
+	sinkLog.open()
+	_ = alog.Close()
+	sinkLog.mu.Lock()
+	out.Lines, out.Stamped, out.BadLines = sinkLog.lines, sinkLog.stamped, sinkLog.bad
+	sinkLog.mu.Unlock()
+	out.Requests, out.Dispatches, out.WrongEcho = int(reqs.Load()), int(dispatches.Load()), int(wrong.Load())
+	if p := panicMsg.Load(); p != nil {
+		out.Panic = p.(string)
+	}
+	b, _ := json.Marshal(out)
+	return b
+}
+
+type countingHook struct {
+	inner *vgirpc.AccessLogHook
+	n     *atomic.Int64
+}
+
+func (c *countingHook) OnDispatchStart(ctx context.Context, info vgirpc.DispatchInfo) (context.Context, vgirpc.HookToken) {
+	c.n.Add(1)
+	return c.inner.OnDispatchStart(ctx, info)
+}
+
+func (c *countingHook) OnDispatchEnd(ctx context.Context, tok vgirpc.HookToken, info vgirpc.DispatchInfo, st *vgirpc.CallStatistics, err error) {
+	c.inner.OnDispatchEnd(ctx, tok, info, st, err)
+}
+
+// runOverflowRounds runs n overflow scenarios in a child process and folds
+// their observations into the run.
+func runOverflowRounds(r *mon.Run, n int) {
+	inputs := make([][]byte, n)
+	for i := range inputs {
+		inputs[i], _ = json.Marshal(overflowIn{Seed: r.Seed(), Index: i})
+	}
+	outs, err := mon.RunIsolated("overflow", inputs, mon.ChildOpt{Timeout: 20 * time.Minute})
+	if err != nil {
+		r.Fatal("RunIsolated(overflow): %v", err)
+	}
+	for _, o := range outs {
+		switch {
+		case o.Crashed:
+			head := o.Detail
+			if len(head) > 6000 {
+				head = head[:6000]
+			}
+			r.Violation("crash:async-access-log", "the process died while serving concurrent requests with an overflowing async access log", map[string]any{"case": string(inputs[o.Index]), "stderr": head})
+			continue
+		case o.TimedOut:
+			r.Inconclusive(fmt.Sprintf("overflow scenario %d: child watchdog fired", o.Index))
+			continue
+		case o.Panicked:
+			r.Fatal("overflow scenario %d panicked in the harness: %s", o.Index, o.Detail)
+		}
+		var res overflowOut
+		if json.Unmarshal(o.Output, &res) != nil {
+			r.Fatal("overflow scenario %d: unreadable output %q", o.Index, o.Output)
+		}
+		if res.Panic != "" {
+			r.Violation("serve-panic:async-log-overflow", "panic out of ServeHTTP during the async-log overflow scenario: "+res.Panic, res)
+		}
+		if res.WrongEcho > 0 {
+			r.Violation("response-corrupt:async-log-overflow", fmt.Sprintf("%d echo responses were wrong", res.WrongEcho), res)
+		}
+		if res.BadLines > 0 {
+			r.Violation("access-log-line-unparsable:async-log-overflow", fmt.Sprintf("%d access-log lines are not one JSON object", res.BadLines), res)
+		}
+		if res.Stamped > 0 && res.Lines < res.Dispatches {
+			r.Class("async-log.overflowed-then-recovered")
+		}
+		r.Case(fmt.Sprintf("overflow|q=%d|g=%d|c=%d|stamped=%d", res.Queue, res.Goroutines, res.Cycles, res.Stamped))
+		r.Count("async_log_overflow.scenarios", 1)
+		r.Count("async_log_overflow.requests", int64(res.Requests))
+		r.Count("async_log_overflow.records_dropped", int64(res.Dispatches-res.Lines))
+		r.Count("async_log_overflow.records_carrying_dropped_records", int64(res.Stamped))
+		if o.Index < 1 {
+			r.Sample(map[string]any{"async_log_overflow_scenario": res})
+		}
+	}
+}
+
 func main() {
+	mon.ChildMain(map[string]mon.ChildFunc{"overflow": overflowScenario})
 	r := mon.Start("C40")
 	defer r.Finish()
 	vgirpc.RegisterStateType(&prodState{})
@@ -707,6 +934,7 @@ func main() {
 		"describe-page", "health", "options", "notfound", "sticky", "sticky-resume", "upload-url", "introspect", "conformance-echo"} {
 		req = append(req, "route:"+rt)
 	}
+	req = append(req, "async-log.overflowed-then-recovered")
 	r.Require(req...)
 
 	if v := os.Getenv("C40_DEV_PROF"); v != "" { // development knob
@@ -738,6 +966,7 @@ func main() {
 	}
 	close(ch)
 	wg.Wait()
+	runOverflowRounds(r, r.N(8, 100))
 	nr := wj.ReportRaces(r, true)
 	r.Set("race_blocks", nr)
 }
